@@ -142,13 +142,10 @@ def gen_jit():
         per.setdefault(key, []).append(((int(x, 16), int(y, 16)), [int(hx[i:i + 2], 16) for i in range(0, len(hx), 2)]))
     out = []
     info = {}
-    for (b0, cb) in encodings():
-        outs = per[(b0, cb)]
-        name = enc_name('j', b0, cb)
+
+    def derive(name, b0, cb, outs, guard=None, fn=fn):
+        """One harness from the emitter's output on a set of immediate probes (all of the same length)."""
         L = len(outs[0][1])
-        if any(len(o[1]) != L for o in outs):
-            info[name] = 'template length varies with immediates'
-            continue
         tc = []; te = []; free = []
         i = 0
         bad = None
@@ -180,22 +177,76 @@ def gen_jit():
                     tc.append(ok[0]); te.append(ok[0])
             i += 1
         if bad:
-            info[name] = bad
-            continue
+            return None, bad
         pos = [k for k, e in enumerate(te) if e in ('b1', 'b2', '!b1', '!b2')]
         if len(pos) > 4:
-            info[name] = 'more than 4 immediate bytes'
-            continue
+            return None, 'more than 4 immediate bytes'
         table = ['(%d, %s)' % (k, te[k]) for k in pos] + ['(usize::MAX, 0)'] * (4 - len(pos))
         te2 = [('0x00' if k in pos else e) for k, e in enumerate(te)]
         steps = 120
         unw = max(L, steps) + 10
         b1 = ('0x%02x' % cb) if cb is not None else 'kani::any()'
-        out.append('#[kani::proof] #[kani::unwind(%d)] %s\nfn %s() { let b1: u8 = %s; let b2: u8 = kani::any();\n'
-                   '  let t: [u8; %d] = [%s];\n  let te: [u8; %d] = [%s];\n  run([0x%02x, b1, b2], &t, &te, %d, %d, [%s], [%s]); }'
-                   % (unw, STUBS, name, b1, L, ', '.join(tc), L, ', '.join(te2), b0, L, steps, ', '.join(table),
-                      ', '.join([str(f) for f in free] + ['usize::MAX'] * (2 - len(free)))))
-        info[name] = 'ok len=%d' % L + (' free=%s' % free if free else '')
+        g = ('  kani::assume(%s);\n' % guard) if guard else ''
+        txt = ('#[kani::proof] #[kani::unwind(%d)] %s\nfn %s() { let b1: u8 = %s; let b2: u8 = kani::any();\n%s'
+               '  let t: [u8; %d] = [%s];\n  let te: [u8; %d] = [%s];\n  run([0x%02x, b1, b2], &t, &te, %d, %d, [%s], [%s]); }'
+               % (unw, STUBS, name, b1, g, L, ', '.join(tc), L, ', '.join(te2), b0, L, steps, ', '.join(table),
+                  ', '.join([str(f) for f in free] + ['usize::MAX'] * (2 - len(free)))))
+        return txt, 'ok len=%d' % L + (' free=%s' % free if free else '')
+
+    def parse_t(lines_):
+        r = []
+        for l in lines_:
+            if not l.startswith('t '):
+                continue
+            _, _b0, _cb, x, y, hx = l.split()
+            r.append(((int(x, 16), int(y, 16)), [int(hx[i:i + 2], 16) for i in range(0, len(hx), 2)]))
+        return r
+
+    for (b0, cb) in encodings():
+        outs = per[(b0, cb)]
+        name = enc_name('j', b0, cb)
+        L = len(outs[0][1])
+        if any(len(o[1]) != L for o in outs):
+            # The emitter specialises on the immediate: split the immediate range into the (few) intervals of equal code
+            # length, found by running the real emitter natively on all 65536 immediates, and derive one harness per interval.
+            if cb is not None:
+                info[name] = 'template length varies with immediates'
+                continue
+            pl = subprocess.run([exe, 'tmpl-lens', '%02x' % b0], capture_output=True, text=True)
+            runs = [tuple(int(v) for v in l.split()[1:]) for l in pl.stdout.splitlines() if l.startswith('r ')]
+            if pl.returncode != 0 or not runs or len(runs) > 4:
+                info[name] = 'template length varies with immediates (%d intervals)' % len(runs)
+                continue
+            sub = []
+            for k, (lo, hi, _l) in enumerate(runs):
+                span = hi - lo
+                ws = sorted(set([lo, hi, lo + span // 2, lo + span // 3, lo + (2 * span) // 3, lo + (span * 5) // 7, lo + (span * 2) // 11, lo + min(span, 0x155), lo + min(span, 0x2aa)]))
+                pp = subprocess.run([exe, 'tmpl-probe', '%02x' % b0] + [str(w) for w in ws], capture_output=True, text=True)
+                o2 = parse_t(pp.stdout.splitlines())
+                fn2 = dict((k, int(v, 16)) for k, v in re.findall(r'(\w+)=([0-9a-f]+)', pp.stdout.splitlines()[0])) if pp.stdout.startswith('fn ') else fn
+                if pp.returncode != 0 or not o2 or any(len(o[1]) != len(o2[0][1]) for o in o2):
+                    sub = None
+                    break
+                guard = '(((b2 as u32) << 8) | b1 as u32) >= %d && (((b2 as u32) << 8) | b1 as u32) <= %d' % (lo, hi)
+                txt, note = derive('%s_k%d' % (name, k), b0, cb, o2, guard, fn2)
+                if txt is None:
+                    sub = None
+                    info[name] = note
+                    break
+                sub.append(('%s_k%d' % (name, k), txt, note + ' imm in [%d, %d]' % (lo, hi)))
+            if not sub:
+                info.setdefault(name, 'template length varies with immediates')
+                continue
+            for (n2, txt, note) in sub:
+                out.append(txt); info[n2] = note
+            info[name] = 'split ' + ','.join(n2 for (n2, _, _) in sub)
+            continue
+        txt, note = derive(name, b0, cb, outs)
+        if txt is None:
+            info[name] = note
+            continue
+        out.append(txt)
+        info[name] = note
     if all(k in frame for k in ('pre', 'epi', 'bepi')):
         arr = lambda bs: '[' + ', '.join('0x%02x' % b for b in bs) + ']'
         out.append('#[kani::proof] #[kani::unwind(130)]\nfn j_frame() {\n  let pre: [u8; %d] = %s;\n  let epi: [u8; %d] = %s;\n  let bepi: [u8; %d] = %s;\n'
@@ -499,9 +550,11 @@ def _run_jit(prop, tier, seed, Ob, only_frame=False):
     names = ['j_frame'] + ([] if only_frame else [enc_name('j', b0, cb) for (b0, cb) in encs])
     if os.environ.get('VERIF_ONLY'):
         names = [n for n in os.environ['VERIF_ONLY'].split(',') if n.startswith('j_')]   # experiments only
+    # an encoding whose code length depends on the immediate is represented by one harness per immediate interval
+    names = [m for n in names for m in (tinfo[n][len('split '):].split(',') if tinfo.get(n, '').startswith('split ') else [n])]
     bad = [n for n in names if not tinfo.get(n, '').startswith('ok')]
     good = [n for n in names if n not in bad]
-    results, info = run_harnesses('jit', 'h_jit', good, 300 if tier == 'quick' else 1500, module='jit')
+    results, info = run_harnesses('jit', 'h_jit', good, 900 if tier == 'quick' else 1500, module='jit')
     obs = _obligations(prop, 'jit', good, results, Ob)
     for n in bad:
         o = Ob('kani:jit::%s[%s]' % (n, prop), 'kani/cbmc', 'harness'); o.verdict = 'undecided'
@@ -517,7 +570,7 @@ def _run_jit(prop, tier, seed, Ob, only_frame=False):
         exe, err = native_build()
         for o in todo:
             hn = re.match(r'kani:jit::(\w+)\[', o.name).group(1)
-            m = re.match(r'j_(cb_)?([0-9a-f]{2})$', hn)
+            m = re.match(r'j_(cb_)?([0-9a-f]{2})(?:_k\d)?$', hn)
             if hn == 'j_frame' and exe is not None:
                 vals, err2 = playback('h_jit', 'jit::harnesses::j_frame', timeout_s=600)
                 if vals is None:
@@ -575,8 +628,6 @@ def _run_jit(prop, tier, seed, Ob, only_frame=False):
 def jit_quick_subset(seed):
     sel = []
     for (b0, cb) in encodings():
-        if b0 == 0x27 and cb is None:
-            continue    # DAA: several minutes, thorough tier only
         if cb is None:
             x, y, z = b0 >> 6, (b0 >> 3) & 7, b0 & 7
             if x == 3:
